@@ -213,6 +213,10 @@ thread_local! {
     /// picked up by the next `ConnRun::new` calls on this thread (None: off)
     pub static AUTO_RESPOND: std::cell::Cell<Option<u32>> = std::cell::Cell::new(None);
     pub static AUTO_FAIL: std::cell::Cell<u32> = std::cell::Cell::new(0);
+    /// picked up (and cleared) by the next `drive_prefix` with a prelude: the owner configures the
+    /// payload limit only after this many bytes of the prelude (which is then received in two
+    /// reads) have been read, i.e. while the request that is about to be rejected is in flight
+    pub static LATE_LIMIT_AT: std::cell::Cell<Option<usize>> = std::cell::Cell::new(None);
 }
 
 pub fn panic_msg(e: Box<dyn std::any::Any + Send>) -> String {
@@ -412,15 +416,28 @@ pub fn drive_prefix(
     // its own before the stream proper, which must then be handled as by a new connection
     let mut whole = prelude.to_vec();
     whole.extend_from_slice(stream);
-    let mut run = ConnRun::new(whole, limit, check_100);
-    let mut info = RunInfo::default();
     let base = prelude.len();
-    if base > 0 {
-        let st = match run.read(ReadEv::Data { want: base, fds: vec![] }) {
+    let late = LATE_LIMIT_AT.with(|c| c.take()).filter(|k| *k > 0 && *k < base && limit.is_some());
+    let mut run = ConnRun::new(whole, if late.is_some() { None } else { limit }, check_100);
+    let mut info = RunInfo::default();
+    if let Some(k) = late {
+        let st = match run.read(ReadEv::Data { want: k, fds: vec![] }) {
             Ok(s) => s.clone(),
             Err(m) => return Err(("stream-misuse".into(), m)),
         };
-        if st.got != base || !matches!(st.res, RRes::Parse(_, _)) {
+        if st.got != k || st.res != RRes::Ok {
+            return Err(("harness-prelude".into(), format!("first {} bytes of the prelude: took {} bytes, result {:?}", k, st.got, st.res)));
+        }
+        run.conn.set_payload_max_size(limit.unwrap());
+        info.label("limit_configured_while_a_request_is_in_flight");
+    }
+    if base > 0 {
+        let rest = base - late.unwrap_or(0);
+        let st = match run.read(ReadEv::Data { want: rest, fds: vec![] }) {
+            Ok(s) => s.clone(),
+            Err(m) => return Err(("stream-misuse".into(), m)),
+        };
+        if st.got != rest || !matches!(st.res, RRes::Parse(_, _)) {
             return Err(("harness-prelude".into(), format!("prelude of {} bytes: took {} bytes, result {:?}", base, st.got, st.res)));
         }
         info.label("after_a_parse_error");
